@@ -316,7 +316,7 @@ def inclInner (c : RCtx) (line : Nat) (args : Bytes) (s : RS) : Tr :=
        let h := c.inc line (joinPath (dirPath c.cfg.path) rel) s.env
        (Tr.bind ⟨[], h.pureFail.map RawErr.site⟩ h.pureRet fun r =>
          match r.1 with
-         | .done => pieceTr (writeM r.2 s)
+         | .done => pieceTr (writeVerbatimM r.2 s)
          | st => ⟨[], some st.site⟩)
      | .ok _ => ⟨[], some (some ⟨line, true⟩)⟩
      | .err _ => ⟨[], some none⟩
@@ -527,7 +527,7 @@ theorem sp_renderNode (c : RCtx) (hc : IncQuiet c) : ∀ (n : Node) (s : RS), Sp
     · refine ownM_bind (ownM_getVar _) (fun lv => ?_)
       split
       · exact ownM_failAt _
-      · exact ownM_bind (ownM_setVar _ _) (fun _ => ownM_bind (ownM_write _) (fun _ => ownM_pure _))
+      · exact ownM_bind (ownM_setVar _ _) (fun _ => ownM_bind (ownM_writeVerbatim _) (fun _ => ownM_pure _))
     · refine retDoneM_bind (fun lv => ?_)
       split
       · exact retDoneM_fail _
@@ -605,7 +605,7 @@ theorem sp_renderNode (c : RCtx) (hc : IncQuiet c) : ∀ (n : Node) (s : RS), Sp
           refine SpS.bind hh (fun r _ => ?_)
           obtain ⟨st, out⟩ := r
           cases st with
-          | done => exact SpS.bind_done (Own.sp_piece (ownM_write (loc := invalidLoc) out s)) (fun x => ⟨x.2, rfl⟩)
+          | done => exact SpS.bind_done (Own.sp_piece (ownM_writeVerbatim (loc := invalidLoc) out s)) (fun x => ⟨x.2, rfl⟩)
           | brk e => exact SpS.retStatus _ _
           | cont e => exact SpS.retStatus _ _
         | _ =>
